@@ -172,13 +172,15 @@ Definition chk_C08 (c : chain_case) (o : op) (ok : bool) (prev cur : val) : list
 (* C11: identity, owner, LP token, reward denom, rate and start of a farm never change; funded and claimed only grow *)
 Definition farm_static (f : val) : val := VL [vnth 0 f; vnth 1 f; vnth 2 f; vnth 0 (vnth 3 f); vnth 5 f; vnth 6 f].
 Definition chk_C11 (c : chain_case) (o : op) (ok : bool) (prev cur : val) : list Z :=
+  (* (a creation may sweep an expired farm and reuse its identifier in the same transaction) *)
+  match o with Tx _ _ (WFm (FmCreateFarm _)) _ => [] | _ =>
   if forallb (fun f => match find (fun g => val_eqb (vnth 0 f) (vnth 0 g)) (snap_farms cur) with
                        | None => true
                        | Some g => val_eqb (farm_static f) (farm_static g) &&
                                    (vgetZ (vnth 1 (vnth 3 f)) <=? vgetZ (vnth 1 (vnth 3 g))) &&
                                    (vgetZ (vnth 4 f) <=? vgetZ (vnth 4 g)) && (vgetZ (vnth 7 f) <=? vgetZ (vnth 7 g))
                        end) (snap_farms prev)
-  then [] else [11].
+  then [] else [11] end.
 
 (* C14: no single-asset bookkeeping survives a transaction *)
 Definition chk_C14 (c : chain_case) (o : op) (ok : bool) (prev cur : val) : list Z :=
